@@ -384,6 +384,13 @@ class VSym:
             return self.run(list(s.body) + rest, env, ret)         # every handler re-raises: an exception in the body is an exception
         if isinstance(s, ast.Return):
             return self.with_value(s.value, env, ret)
+        if isinstance(s, (ast.Assign, ast.AugAssign)) and isinstance(s.value, ast.JoinedStr):
+            # the text of an error message (f-string): not a value of the computation
+            t_ = s.targets[0] if isinstance(s, ast.Assign) else s.target
+            env2 = dict(env)
+            if isinstance(t_, ast.Name):
+                env2[t_.id] = None
+            return self.run(rest, env2, ret)
         if isinstance(s, ast.Assign):
             if len(s.targets) != 1:
                 raise Untranslatable("chained assignment")
@@ -591,49 +598,74 @@ class VSym:
             env2[n] = Val(fresh, va.ty)
         return lets, env2
 
+    def inlinable(self, node, env):
+        """a call that is inlined: a module-level function, a function imported from a sibling module, or a (non-property) method of the class being
+        translated called as self.method(...): returns (FunctionDef, tree, file, cls, is_method) or None"""
+        if not isinstance(node, ast.Call):
+            return None
+        if isinstance(node.func, ast.Name) and node.func.id not in env:
+            fn = self.module_function(node.func.id)
+            if fn is not None:
+                return fn, self.tree, self.file, self.cls, False
+            imp = self.imported_function(node.func.id)
+            if imp is not None:
+                return imp[0], imp[1], imp[2], None, False
+        if isinstance(node.func, ast.Attribute) and isinstance(node.func.value, ast.Name) and node.func.value.id == "self" and self.cls:
+            c = self.class_node()
+            for m in (c.body if c else []):
+                if isinstance(m, ast.FunctionDef) and m.name == node.func.attr and not m.decorator_list:
+                    return m, self.tree, self.file, self.cls, True
+        return None
+
     def with_value(self, node, env, k):
-        """evaluate `node` (possibly a call of a module function, which is inlined) and continue with k(Val)"""
-        imported = None
-        if isinstance(node, ast.Call) and isinstance(node.func, ast.Name) and node.func.id not in env and self.module_function(node.func.id) is None:
-            imported = self.imported_function(node.func.id)
-        if isinstance(node, ast.Call) and isinstance(node.func, ast.Name) and node.func.id not in env and (self.module_function(node.func.id) is not None or imported):
-            helper = imported[0] if imported else self.module_function(node.func.id)
-            if self.depth >= 3:
+        """evaluate `node` and continue with k(Val); calls of module functions, imported functions and methods of the class are inlined (their arguments
+        may themselves be such calls: they are evaluated first, left to right)"""
+        ab = getattr(self, "abstract", None)
+        target = None if (ab and not isinstance(node, (ast.Name, ast.Attribute)) and ast.unparse(node) in ab) else self.inlinable(node, env)
+        if target is not None:
+            helper, tree, file, cls, is_method = target
+            if self.depth >= 4:
                 raise Untranslatable("helper nesting")
             a = helper.args
             if a.vararg or a.kwarg or a.kwonlyargs or a.posonlyargs:
                 raise Untranslatable("helper signature")
             names = [x.arg for x in a.args]
-            defaults = dict(zip(names[len(names) - len(a.defaults):], a.defaults))
-            guards = []
-            given = {}
-            for n, x in zip(names, node.args):
-                given[n] = self.expr(x, env, guards)
+            if is_method:
+                if not names or names[0] != "self":
+                    raise Untranslatable("method signature")
+                names = names[1:]
+            defaults = dict(zip(names[len(names) - len(a.defaults):], a.defaults)) if a.defaults else {}
+            arg_nodes = list(zip(names, node.args))
             for kw in node.keywords:
-                if kw.arg is None or kw.arg not in names or kw.arg in given:
+                if kw.arg is None or kw.arg not in names or kw.arg in dict(arg_nodes):
                     raise Untranslatable("helper keyword")
-                given[kw.arg] = self.expr(kw.value, env, guards)
-            lets = ""
-            env2 = {}
-            for n in names:
-                if n in given:
-                    v = given[n]
-                elif n in defaults:
-                    v = self.expr(defaults[n], {}, guards)
-                else:
-                    raise Untranslatable(f"missing argument {n}")
-                if v.ty in ("n", "v", "b", "ov", "str", "ostr") and not v.has_const:
-                    fresh = self.fresh("arg_" + n)
-                    lets += f"let {fresh} := {v.text}; "
-                    v = Val(fresh, v.ty)
-                env2[n] = v
-            sub = VSym(imported[1] if imported else self.tree, self.tables, self.depth + 1, self.counter, repo=self.repo,
-                       file=imported[2] if imported else self.file, cls=None if imported else self.cls)
-            body = sub.run(list(helper.body), env2, k)
-            body = f"({lets}{body})" if lets else body
-            for g in guards:
-                body = f"(if {g} then none else {body})"
-            return body
+                arg_nodes.append((kw.arg, kw.value))
+            if len(node.args) > len(names):
+                raise Untranslatable("helper arguments")
+
+            def bind_args(i, given):
+                if i < len(arg_nodes):
+                    name, anode = arg_nodes[i]
+                    return self.with_value(anode, env, lambda v: bind_args(i + 1, dict(given, **{name: v})))
+                lets = ""
+                env2 = {key: val for key, val in env.items() if key.startswith("self.")} if is_method else {}
+                for n in names:
+                    if n in given:
+                        v = given[n]
+                    elif n in defaults:
+                        v = self.expr(defaults[n], {}, [])
+                    else:
+                        raise Untranslatable(f"missing argument {n}")
+                    if v.ty in ("n", "v", "b", "ov", "str", "ostr") and not v.has_const:
+                        fresh = self.fresh("arg_" + n)
+                        lets += f"let {fresh} := {v.text}; "
+                        v = Val(fresh, v.ty)
+                    env2[n] = v
+                sub = VSym(tree, self.tables, self.depth + 1, self.counter, repo=self.repo, file=file, cls=cls)
+                sub.sqrt_nan, sub.abstract = getattr(self, "sqrt_nan", False), getattr(self, "abstract", None)
+                body = sub.run(list(helper.body), env2, k)
+                return f"({lets}{body})" if lets else body
+            return bind_args(0, {})
         guards = []
         v = self.expr(node, env, guards)
         body = k(v)
@@ -661,9 +693,18 @@ def _trad_stat(name, method):
                 params=[("distribution", "str"), (f"self._main_peak_{which}", "v"), ("self.valid_peak_boolean_mask", "b")])
 
 
+def _trad_nth(name, method):
+    which = "frq" if "frequency" in method else "amp"
+    return dict(name=name, file="hvsrpy/hvsr_traditional.py", cls="HvsrTraditional", func=method, tables=["DISTRIBUTION_MAP"], args=["self", "n", "distribution"],
+                params=[("n", "n"), ("distribution", "str"), (f"self._main_peak_{which}", "v"), ("self.valid_peak_boolean_mask", "b")])
+
+
 # the accessor layer of HvsrTraditional: WHICH array and WHICH mask feed the estimator (C05; the estimator itself is inlined from statistics.py)
 TARGETS += [_trad_stat("trad_mean_fn_frequency", "mean_fn_frequency"), _trad_stat("trad_std_fn_frequency", "std_fn_frequency"),
-            _trad_stat("trad_mean_fn_amplitude", "mean_fn_amplitude"), _trad_stat("trad_std_fn_amplitude", "std_fn_amplitude")]
+            _trad_stat("trad_mean_fn_amplitude", "mean_fn_amplitude"), _trad_stat("trad_std_fn_amplitude", "std_fn_amplitude"),
+            # mean +- n standard deviations (the rejection bounds of the frequency-domain algorithm are nth_std_fn_frequency(-n) and (+n)): two method calls
+            # as arguments of the imported _nth_std_factory
+            _trad_nth("trad_nth_std_fn_frequency", "nth_std_fn_frequency"), _trad_nth("trad_nth_std_fn_amplitude", "nth_std_fn_amplitude")]
 
 
 def _az_stat(name, method):
@@ -740,7 +781,7 @@ def emit(repo):
     return status, "\n".join(L) + "\n"
 
 
-READ = {"v": "optVec", "ov": "optOptVec", "str": "tok", "b": "boolVec", "m": "optMat"}
+READ = {"v": "optVec", "ov": "optOptVec", "str": "tok", "b": "boolVec", "m": "optMat", "n": "optFlt"}
 
 
 def emit_driver(status):
